@@ -1750,6 +1750,89 @@ def C09_builder_payload_family():
     return True, f"{n} payloads stored as the precision policy requires"
 
 
+def D39_plugin_import_rebinds_jnp_cumsum():
+    """C13: the first conversion of a process (which imports the plugins) must leave jax.numpy.cumsum as it was; run in a
+    fresh interpreter, since the rebinding happens once per process"""
+    import subprocess
+    import sys
+    code = (
+        "import numpy as np, jax, jax.numpy as jnp\n"
+        "before = jnp.cumsum\n"
+        "x = jnp.asarray(np.arange(6, dtype=np.float32).reshape(2, 3))\n"
+        "r0 = np.asarray(jnp.cumsum(x, 1))\n"
+        "import jax2onnx\n"
+        "jax2onnx.to_onnx(lambda a: a + 1.0, [(3,)])\n"
+        "same = jnp.cumsum is before\n"
+        "try:\n"
+        "    r1 = np.asarray(jnp.cumsum(x, 1)); call = 'ok' if np.array_equal(r0, r1) else 'different result'\n"
+        "except Exception as e:\n"
+        "    call = f'raises {type(e).__name__}: {e}'\n"
+        "print('RESULT', same, '|', getattr(jnp.cumsum, '__name__', '?'), '|', call)\n")
+    p_ = subprocess.run([sys.executable, "-c", code], capture_output=True, text=True, timeout=600)
+    line = [ln for ln in p_.stdout.splitlines() if ln.startswith("RESULT")]
+    if not line:
+        return None, f"probe did not finish: {(p_.stdout + p_.stderr)[-300:]}"
+    same, name, call = [t.strip() for t in line[0][len("RESULT"):].split("|")]
+    if same != "True" or call != "ok":
+        return False, f"after the first to_onnx of a process jax.numpy.cumsum is `{name}` (same object: {same}); jnp.cumsum(x, 1), accepted before, {call}"
+    return True, "jax.numpy.cumsum is the same object and accepts the same call after the first conversion"
+
+
+def D40_concatenate_along_a_symbolic_axis_declares_the_sum():
+    """C08/C04: concatenating along an axis of symbolic extent must not declare the first operand's extent for the result"""
+    jax, jnp = _jax()
+    import jax2onnx
+    for what, fn, spec, feed in (("concatenate([y, 2y], 0) on y[B,3]", lambda y: jnp.concatenate([y, y * 2.0], 0), [("B", 3)], np.ones((4, 3), np.float32)),
+                                 ("concatenate([y, y], 0).reshape(2, B, N) on y[B,N]", lambda y: jnp.concatenate([y, y], 0).reshape(2, y.shape[0], y.shape[1]), [("B", "N")], np.ones((4, 3), np.float32)),
+                                 ("concatenate([y, y[:, :1]], 1) on y[3,N]", lambda y: jnp.concatenate([y, y[:, :1]], 1), [(3, "N")], np.ones((3, 5), np.float32))):
+        try:
+            m = jax2onnx.to_onnx(fn, spec, model_name="d40")
+        except Exception:
+            continue      # loud
+        decl = [[(d.dim_param or d.dim_value) for d in o.type.tensor_type.shape.dim] for o in m.graph.output]
+        try:
+            got = _run(m, [feed])[0]
+        except Exception as e:
+            return False, f"{what}: ONNX Runtime fails: {str(e)[-200:]}"
+        want = np.asarray(fn(jnp.asarray(feed)))
+        if got[0].shape != want.shape or not np.allclose(got[0], want):
+            return False, f"{what}: model gives {got[0].shape}, JAX {want.shape}"
+        in_decl = {i.name: [(d.dim_param or d.dim_value) for d in i.type.tensor_type.shape.dim] for i in m.graph.input}
+        binding = {}
+        for dims in in_decl.values():
+            for d, n_ in zip(dims, feed.shape):
+                if isinstance(d, str):
+                    binding[d] = n_
+        for d, n_ in zip(decl[0], got[0].shape):
+            if isinstance(d, str) and d in binding and binding[d] != n_:
+                return False, f"{what}: the output is declared {decl[0]} but has shape {got[0].shape} when {binding}"
+            if isinstance(d, int) and d and d != n_:
+                return False, f"{what}: the output is declared {decl[0]} but has shape {got[0].shape}"
+    return True, "declared extents of concatenations hold at run time"
+
+
+def D41_complex_output_flagged_nchw():
+    """C12: a complex 4-D output listed in outputs_as_nchw is rejected or exported as the NCHW view of the plain export"""
+    jax, jnp = _jax()
+    import jax2onnx
+    fn = lambda x: jax.lax.complex(x, 2.0 * x)  # noqa: E731
+    spec = [jax.ShapeDtypeStruct((2, 5, 7, 3), jnp.float32)]
+    x = np.arange(2 * 5 * 7 * 3, dtype=np.float32).reshape(2, 5, 7, 3)
+    try:
+        m = jax2onnx.to_onnx(fn, spec, outputs_as_nchw=[0], model_name="d41")
+    except Exception as e:
+        return True, f"export raised {type(e).__name__} (loud)"
+    try:
+        got = _run(m, [x])[0][0]
+    except Exception as e:
+        return False, f"exported without an error, but ONNX Runtime fails: {str(e)[-160:]}"
+    plain = _run(jax2onnx.to_onnx(fn, spec, model_name="d41p"), [x])[0][0]
+    want = np.transpose(plain, (0, 3, 1, 2) + tuple(range(4, plain.ndim)))
+    if got.shape != want.shape or not np.allclose(got, want):
+        return False, f"flagged export gives {got.shape}, NCHW view of the plain export is {want.shape}"
+    return True, "flagged complex output is the NCHW view of the plain one"
+
+
 def _scope_walk(model):
     """(ok, why): every value is defined before it is read, in its own graph or an enclosing one; function bodies read only their inputs"""
     def walk(g, outer, where):
@@ -1880,6 +1963,8 @@ ALL = {
     "C04_function_symbol_binding_family": C04_function_symbol_binding_family,
     "D38": D38_one_label_for_different_data_dependent_extents,
     "C09_builder_payload_family": C09_builder_payload_family,
+    "D39": D39_plugin_import_rebinds_jnp_cumsum,
+    "D40": D40_concatenate_along_a_symbolic_axis_declares_the_sum, "D41": D41_complex_output_flagged_nchw,
     "C13_retrace_family": C13_retrace_family, "D36": D36_jit_helper_keeps_working_after_conversion,
     "C13_rebinding_between_conversions": C13_rebinding_between_conversions,
     "D1": D1_max_nonscalar_side_operand,
